@@ -613,6 +613,14 @@ def insert_rules(chk, repo, clause='C06-c'):
                 fslices = a[2]
         if fslices is None:
             raise AnalysisError('field.insert: field slice not found in the stored value')
+        if any(isinstance(key.items[ax].hi - key.items[ax].lo, Poly) and (key.items[ax].hi - key.items[ax].lo).is_zero() and
+               (fslices.items[ax].hi - fslices.items[ax].lo).is_zero() for ax in (0, 1)
+               if all(isinstance(x, Poly) for x in (key.items[ax].hi, key.items[ax].lo, fslices.items[ax].hi, fslices.items[ax].lo))):
+            # an empty window on both sides: the accumulation adds nothing - the same question as a return without a store
+            verdict, why = _skip_is_outside(p, oshape, fshape, foff)
+            chk.ob(clause, 'D-guard', 'field.insert', f'out is returned untouched only for a field wholly outside it [{conds_str(p)[-50:]}]',
+                   verdict, why, f.loc(p.node))
+            continue
         for ax in (0, 1):
             o, fs = key.items[ax], fslices.items[ax]
             ul = HALF(oshape.items[ax]) - HALF(fshape.items[ax]) + foff.items[ax]
